@@ -495,7 +495,7 @@ class World(object):
 
     def _op_c_close(self, a, b, c):
         cand = self._circ_list(lambda x: True)
-        if b % 3 == 0:       # prefer one whose close was requested / that carries streams
+        if b % 3 != 2:       # prefer one whose close was requested / that carries streams
             pref = [x for x in cand if x.close_requested or
                     any(s.circ is x for s in self.streams.values())]
             cand = pref or cand
